@@ -1,55 +1,71 @@
 #!/usr/bin/env python3
-"""usage: tools/campaign_expect.py [Cxx ...]
-For every candidate mutation under /verif/campaign/<Cxx>/NN.diff: apply it in a private scratch worktree, run the
-quick check of its own property; if that is silent run all twenty; record the first reporting rule in
-/verif/campaign/EXPECT.json ({"Cxx/NN": {"expect": "<rule id>", "note": ...}}). Candidates nothing reports keep
-an entry under "unclaimed" in /verif/campaign/UNCLAIMED.json together with the hand-written reason found there.
-The thorough tier replays every EXPECT entry as a positive mutant of the property that owns the rule."""
-import json, os, re, subprocess, sys, glob
+"""usage: tools/campaign_expect.py [Cxx[.N] ...]
+For every candidate mutation under /verif/campaign/<dir>/NN.diff: apply it in a private scratch worktree, run the
+quick check of its own property (the directory name before the dot); if that is silent run all twenty; record the
+first reporting rule in /verif/campaign/EXPECT.json ({"Cxx/NN": {"expect": "<rule id>", "note": ...}}). Candidates
+nothing reports keep an entry in /verif/campaign/UNCLAIMED.json together with the hand-written reason found there.
+The thorough tier replays every EXPECT entry as a positive mutant of the property that owns the rule.
+Environment: FOSITE_BIN (default /verif/bin/fositelint), CE_WORKERS (default 6 worktrees, at most 3 checks each)."""
+import json, os, re, subprocess, sys, glob, threading, queue
+from concurrent.futures import ThreadPoolExecutor
 V='/verif'
+BIN=os.environ.get('FOSITE_BIN',f'{V}/bin/fositelint')
+NW=int(os.environ.get('CE_WORKERS','6'))
 props=[c['property_id'] for c in json.load(open(f'{V}/MANIFEST.json'))['checks']]
-W=f'/tmp/wt/CE_{os.getpid()}'
-subprocess.run(['git','-C','/repo','worktree','add','-q','--detach',W,'HEAD'],check=True)
 exp_path=f'{V}/campaign/EXPECT.json'; unc_path=f'{V}/campaign/UNCLAIMED.json'
 exp=json.load(open(exp_path)) if os.path.exists(exp_path) else {}
 unc=json.load(open(unc_path)) if os.path.exists(unc_path) else {}
-def run(prop):
-    vd=f'/tmp/ce_{os.getpid()}/{prop}'; os.makedirs(vd,exist_ok=True)
+lock=threading.Lock()
+def run(W,prop):
+    vd=f'/tmp/ce_{os.getpid()}/{os.path.basename(W)}/{prop}'; os.makedirs(vd,exist_ok=True)
     subprocess.run(['cp',f'{V}/known_findings.json',vd])
-    r=subprocess.run([f'{V}/bin/fositelint','check',prop,'quick'],env=dict(os.environ,FOSITE_REPO=W,VERIF_DIR=vd),capture_output=True,text=True)
+    r=subprocess.run([BIN,'check',prop,'quick'],env=dict(os.environ,FOSITE_REPO=W,VERIF_DIR=vd),capture_output=True,text=True)
     rules=sorted(set(re.findall(r'rule=(C\d+\.\w+)',r.stdout)))
     return r.returncode, rules
-try:
-    sel=sys.argv[1:] or sorted(os.path.basename(d) for d in glob.glob(f'{V}/campaign/C*') if os.path.isdir(d))
-    for pdir in sel:
-        for d in sorted(glob.glob(f'{V}/campaign/{pdir}/*.diff')):
-            name=f'{pdir}/{os.path.basename(d)[:-5]}'
-            subprocess.run(['git','-C',W,'checkout','-q','--','.']); subprocess.run(['git','-C',W,'clean','-fdq'])
-            if subprocess.run(['git','-C',W,'apply',d]).returncode!=0:
-                print(name,'DOES-NOT-APPLY'); continue
-            prop=pdir.split('.')[0]
-            rc,rules=run(prop)
-            if rc==1 and rules:
-                own=[r for r in rules if r.startswith(prop+'.')] or rules
-                exp[name]={'expect':own[0],'note':'all: '+' '.join(rules)}; unc.pop(name,None)
-                print(name,'CAUGHT',own[0]); continue
-            found=None
-            from concurrent.futures import ThreadPoolExecutor
-            others=[p for p in props if p!=prop]
-            with ThreadPoolExecutor(max_workers=10) as ex:
-                res=list(ex.map(run, others))
-            allrules=[]
-            for (rc,rules) in res:
-                if rc==1: allrules+=rules
-            if allrules:
-                found=(sorted(allrules)[0],sorted(set(allrules)))
-            if found:
-                exp[name]={'expect':found[0],'note':'neighbour; all: '+' '.join(found[1])}; unc.pop(name,None)
-                print(name,'CAUGHT (neighbour)',found[0])
-            else:
-                exp.pop(name,None); unc.setdefault(name,{'reason':'TRIAGE'})
-                print(name,'MISSED')
-            json.dump(exp,open(exp_path,'w'),indent=1,sort_keys=True); json.dump(unc,open(unc_path,'w'),indent=1,sort_keys=True)
-    json.dump(exp,open(exp_path,'w'),indent=1,sort_keys=True); json.dump(unc,open(unc_path,'w'),indent=1,sort_keys=True)
-finally:
-    subprocess.run(['git','-C','/repo','worktree','remove','--force',W])
+def one(W,pdir,d):
+    name=f'{pdir}/{os.path.basename(d)[:-5]}'
+    subprocess.run(['git','-C',W,'checkout','-q','--','.']); subprocess.run(['git','-C',W,'clean','-fdq'])
+    if subprocess.run(['git','-C',W,'apply',d]).returncode!=0:
+        return name,'DOES-NOT-APPLY',None
+    prop=pdir.split('.')[0]
+    rc,rules=run(W,prop)
+    if rc==1 and rules:
+        own=[r for r in rules if r.startswith(prop+'.')] or rules
+        return name,'CAUGHT '+own[0],{'expect':own[0],'note':'all: '+' '.join(rules)}
+    others=[p for p in props if p!=prop]
+    with ThreadPoolExecutor(max_workers=3) as ex:
+        res=list(ex.map(lambda p: run(W,p), others))
+    allrules=[]
+    for (rc,rules) in res:
+        if rc==1: allrules+=rules
+    if allrules:
+        a=sorted(set(allrules))
+        return name,'CAUGHT (neighbour) '+a[0],{'expect':a[0],'note':'neighbour; all: '+' '.join(a)}
+    return name,'MISSED',None
+sel=sys.argv[1:] or sorted(os.path.basename(d) for d in glob.glob(f'{V}/campaign/C*') if os.path.isdir(d))
+jobs=queue.Queue()
+for pdir in sel:
+    for d in sorted(glob.glob(f'{V}/campaign/{pdir}/*.diff')): jobs.put((pdir,d))
+out={}
+def worker(i):
+    W=f'/tmp/wt/CE_{os.getpid()}_{i}'
+    subprocess.run(['git','-C','/repo','worktree','add','-q','--detach',W,'HEAD'],check=True)
+    try:
+        while True:
+            try: pdir,d=jobs.get_nowait()
+            except queue.Empty: return
+            name,verdict,e=one(W,pdir,d)
+            with lock:
+                out[name]=verdict
+                if verdict=='DOES-NOT-APPLY': pass
+                elif e: exp[name]=e; unc.pop(name,None)
+                else: exp.pop(name,None); unc.setdefault(name,{'reason':'TRIAGE'})
+                json.dump(exp,open(exp_path,'w'),indent=1,sort_keys=True); json.dump(unc,open(unc_path,'w'),indent=1,sort_keys=True)
+                print(name,verdict,flush=True)
+    finally:
+        subprocess.run(['git','-C','/repo','worktree','remove','--force',W])
+ts=[threading.Thread(target=worker,args=(i,)) for i in range(NW)]
+[t.start() for t in ts]; [t.join() for t in ts]
+subprocess.run(['rm','-rf',f'/tmp/ce_{os.getpid()}'])
+n=sum(1 for v in out.values() if v.startswith('CAUGHT'))
+print(f'SUMMARY caught={n} of {len(out)}; missed: '+' '.join(sorted(k for k,v in out.items() if v=='MISSED')))
